@@ -351,7 +351,9 @@ class Hist:
                 pairs.append("%s=%s" % (enc(k), enc(v)))
                 shadow[k] = v
         if bad:
-            missing = [k for k in self.keys if k not in shadow] or [b"\x01missing"]
+            # a key that is absent before, during and after the other pairs (wherever the removal is inserted)
+            touched = {pp.split("=")[0].replace("del:", "") for pp in pairs}
+            missing = [k for k in self.keys if k not in shadow and k not in self.working and enc(k) not in touched] or [b"\x01missing"]
             pairs.insert(r.randint(0, len(pairs)), "del:" + enc(r.choice(missing)))
             self.emit("savecs " + ",".join(pairs))   # rejected: removal of a missing key
             self.emit("rollback")
